@@ -86,7 +86,7 @@ Ltac row_elt := cbv [iso_vector trace3 mk_arr nth]; numR; eqR.
 Ltac row_leaf :=
   cbv beta iota delta [enc_row];
   first [ reflexivity
-        | (f_equal; apply pair_eq2; [ reflexivity | apply mk_arr_eq; repeat (apply cons_eq2; [ row_elt | ]); reflexivity ]) ].
+        | (f_equal; apply pair_eq2; [ reflexivity | apply mk_arr_eq; repeat (apply cons_eq2; [ timeout 60 row_elt | ]); reflexivity ]) ].
 
 Theorem ec_row_inst (eigh : arr NumR -> arr NumR * arr NumR) (M : arr NumR) :
   @k_ec_row NumR eigh M
